@@ -1,0 +1,70 @@
+//! Verification hooks (only compiled with the `verif` cargo feature).
+//!
+//! A thread-local logical step counter and an append-only event log of layout decisions and
+//! token-sequence transformations taken while formatting. External monitors read them with
+//! [`take`] after a `format_code` call. Nothing here influences formatting.
+
+use std::cell::{Cell, RefCell};
+
+/// One recorded decision / transformation: a static site name and two small payload values.
+pub type Event = (&'static str, u32, u32);
+
+thread_local! {
+    static TICKS: Cell<u64> = const { Cell::new(0) };
+    static EVENTS: RefCell<Vec<Event>> = const { RefCell::new(Vec::new()) };
+    static EVENTS_ON: Cell<bool> = const { Cell::new(false) };
+}
+
+/// Maximum number of events kept per formatting run (the counter keeps running).
+const MAX_EVENTS: usize = 200_000;
+
+/// Count one logical step.
+#[inline]
+pub fn tick() {
+    TICKS.with(|t| t.set(t.get().wrapping_add(1)));
+}
+
+/// Record an event (only if event recording has been switched on with [`record_events`]).
+#[inline]
+pub fn event(site: &'static str, a: u32, b: u32) {
+    if EVENTS_ON.with(|e| e.get()) {
+        EVENTS.with(|e| {
+            let mut e = e.borrow_mut();
+            if e.len() < MAX_EVENTS {
+                e.push((site, a, b));
+            }
+        });
+    }
+}
+
+/// Switch event recording on or off for the current thread.
+pub fn record_events(on: bool) {
+    EVENTS_ON.with(|e| e.set(on));
+}
+
+/// Reset the counter and the log of the current thread.
+pub fn reset() {
+    TICKS.with(|t| t.set(0));
+    EVENTS.with(|e| e.borrow_mut().clear());
+}
+
+/// Current value of the step counter.
+pub fn ticks() -> u64 {
+    TICKS.with(|t| t.get())
+}
+
+/// Take the step counter and the event log of the current thread, resetting both.
+pub fn take() -> (u64, Vec<Event>) {
+    let t = TICKS.with(|t| t.replace(0));
+    let e = EVENTS.with(|e| std::mem::take(&mut *e.borrow_mut()));
+    (t, e)
+}
+
+/// Fault injection: panic if `STYLUA_VERIF_PANIC_MARKER` is set and occurs in the source text.
+pub fn maybe_inject_panic(code: &str) {
+    if let Ok(marker) = std::env::var("STYLUA_VERIF_PANIC_MARKER") {
+        if !marker.is_empty() && code.contains(&marker) {
+            panic!("stylua verif: injected formatting crash");
+        }
+    }
+}
